@@ -44,6 +44,12 @@ func TestVerif(t *testing.T) {
 				} else {
 					applyCase(c["line"])
 				}
+			case "S":
+				var sd, cl, rd uint64
+				fmt.Sscan(c["seed"], &sd)
+				fmt.Sscan(c["callers"], &cl)
+				fmt.Sscan(c["rounds"], &rd)
+				stressMerge(sd, int(cl), int(rd))
 			case "M":
 				var mc MergeCase
 				if err := json.Unmarshal([]byte(c["case"]), &mc); err != nil {
@@ -85,6 +91,11 @@ func TestVerif(t *testing.T) {
 		nx += exploreMerge(t, 3, 3, 800000) + exploreMerge(t, 4, 2, 400000) + exploreMerge(t, 5, 1, 400000)
 	}
 	run.Extra["merge_schedules_enumerated"] = nx
+	// free-running stress of the real Merge/Pool (lock-region interleavings under the Go scheduler)
+	rs := r.Fork()
+	for i := 0; i < run.Scale(30, 600); i++ {
+		stressMerge(rs.U64(), 2+rs.Intn(7), 1+rs.Intn(20))
+	}
 	// every release order of the HTTP exchanges of 2 (thorough: 3) concurrent operations
 	// on one subject with a pre-existing referrer, with at most one injected index failure
 	ex := 0
@@ -103,6 +114,30 @@ func TestVerif(t *testing.T) {
 	re := r.Fork()
 	for i := 0; i < ne; i++ {
 		e2eCase(t, genE2E(re, run.Thorough()))
+	}
+	// coverage floors: a stream that produced nothing is a broken check, not a pass
+	floors := map[string]int{"A/apply/": 1000, "A/remove-empty": 50, "A/filter": 50, "T/tag": 50, "K/caps": 5, "M/callers=": 100, "S/stress": 20,
+		"E/ops=": 100, "X/projected": 100, "L/listing": 100, "D/decoration": 50, "E/same-manifest-overlap": 5,
+		"E/fault/idx-": 20, "E/outcome=idxdel": 3, "E/outcome=err": 10, "E/skipgc": 10, "E/subjects=2": 5, "E/subjects=3": 5}
+	if run.Thorough() {
+		floors["E/shared-index-drop"] = 20
+		floors["E/fault/man-"] = 20
+		floors["E/fault/idx-put/lost"] = 20
+		floors["E/fault/idx-del/404"] = 20
+	}
+	for prefix, min := range floors {
+		n := 0
+		for k, v := range run.Dist {
+			if strings.HasPrefix(k, prefix) {
+				n += v
+			}
+		}
+		if n < min {
+			t.Errorf("coverage floor: %q produced %d cases (< %d)", prefix, n, min)
+		}
+	}
+	if nx < 50 || ex < 100 {
+		t.Errorf("coverage floor: %d merge schedules, %d end-to-end schedules enumerated", nx, ex)
 	}
 }
 
@@ -132,6 +167,27 @@ func e2eCase(t *testing.T, c *E2ECase) {
 	run.Count(fmt.Sprintf("E/faults=%d", nfail))
 	if c.SkipGC {
 		run.Count("E/skipgc")
+	}
+	for _, rd := range c.Rounds {
+		seen := map[int]bool{}
+		for _, o := range rd {
+			if seen[o.Man] {
+				run.Count("E/same-manifest-overlap")
+			}
+			seen[o.Man] = true
+		}
+	}
+	for _, e := range res.Events {
+		if len(e.Dropped) > 0 {
+			run.Count("E/shared-index-drop")
+		}
+		if e.Fail {
+			k := e.Kind
+			if k == "" {
+				k = fmt.Sprint(e.Status)
+			}
+			run.Count("E/fault/" + e.Class + "/" + k)
+		}
 	}
 	for _, o := range res.Ops {
 		run.Count("E/outcome=" + o.Outcome)
@@ -182,6 +238,7 @@ func e2eCase(t *testing.T, c *E2ECase) {
 				if m.Kind == "image" {
 					cfg = typeID(m.ConfigMT)
 				}
+				run.Count("D/decoration")
 				run.Case(run.NewID(), fmt.Sprintf("D %s %d %d", m.Kind, typeID(m.ArtifactType), cfg), fmt.Sprintf("D %d", typeID(it.ArtifactType)))
 			}
 		}
@@ -222,6 +279,7 @@ func e2eCase(t *testing.T, c *E2ECase) {
 				return strings.Join(ks, ",")
 			}
 			if res.Listings[s].Err == "" {
+				run.Count("L/listing")
 				run.Case(run.NewID(), fmt.Sprintf("L 0 %s", ents), "L "+keysOfItems(res.Listings[s]))
 			}
 			if res.FilterType != "" && res.Filtered[s].Err == "" {
@@ -230,6 +288,7 @@ func e2eCase(t *testing.T, c *E2ECase) {
 		}
 		for s := 0; s < c.NSubjects; s++ {
 			if in, obs, ok := xLine(c, res, s); ok {
+				run.Count("X/projected")
 				run.Case(run.NewID(), in, obs)
 				run.TracesAgainstImpl++
 			}
